@@ -2,4 +2,4 @@ from . import raggedhist
 
 
 def run(tier, seed):
-    return raggedhist.run_check('C05', tier, seed, 'data+overflow')
+    return raggedhist.run_check('C05', tier, seed, 'data+overflow+ctx')
